@@ -244,6 +244,10 @@ def f14_program():
 def make_cases(rng, tier):
     n = 500 if tier == "quick" else 12000
     progs = [f14_program()] + directed(rng, n // 2)
+    # deterministic: short sequences of SQL operations downstream of a transfer into the SQL engine (the Processor replays
+    # them on the transferred relation, so every nesting decision of the SQL engine is taken a second time)
+    import sqlprog as sp
+    progs += sp.op_sequences(tier != "quick", leaf_engine=("it", 0), xfer_to=("sql", 0))
     for _ in range(n):
         progs.append(mp.gen_mprog(rng, rng.choice([1, 2, 3, 4, 5, 7]), p_xfer=0.25, p_mat=0.15, p_opts=0.2)[0])
     cases, stats = [], {"hooks": 0, "transfer_hooks": 0, "materialize_hooks": 0, "materialize_as": 0, "rejected_at_build": 0, "iteration_join_refused": 0,
